@@ -122,6 +122,130 @@ def make_foreign(rng, texts, maxlen):
     raise RuntimeError("could not draw a foreign text")
 
 
+# ------------------------------------------------------------------ size stress (notes/SIZE_STRESS.md)
+# The abstract case (content ids, number of distinguished writes) does not change; the concretization
+# gets a size dimension: line counts 0 / 1 / 1000 / 100000, file sizes around 8 KiB / 64 KiB / 1 MiB /
+# 16 MiB, line lengths and patch-name lengths in boundary neighbourhoods, index size columns of up
+# to 12 digits, long histories.  TLC's expectation is length-independent by construction.
+
+BOUNDARY_LENS = [1, 2, 7, 8, 9, 15, 16, 17, 31, 32, 33, 63, 64, 65, 71, 72, 73, 79, 80, 81, 127, 128, 129,
+                 255, 256, 257, 1023, 1024, 1025, 4095, 4096, 4097, 8191, 8192, 8193]
+BIG_LENS = [65535, 65536, 65537]
+BYTE_OFFSETS = [4095, 4096, 4097, 8191, 8192, 8193, 65535, 65536, 65537]
+_ALPHA64 = b"ABCDEFGHIJKLMNOPQRSTUVWXYZabcdefghijklmnopqrstuvwxyz0123456789 -"      # no '.', no line break
+_TABLE = bytes(_ALPHA64[b % 64] for b in range(256))
+
+
+def blob(rng, n):
+    return rng.randbytes(n).translate(_TABLE).decode("ascii") if n else ""
+
+
+def big_lines(rng, lengths):
+    """newline-terminated lines with the given content lengths (random, hardly compressible text)"""
+    b = blob(rng, sum(lengths))
+    out, p = [], 0
+    for n in lengths:
+        out.append(b[p:p + n] + "\n")
+        p += n
+    return out
+
+
+def length_list(rng, nlines, spec, total=None):
+    """content lengths for nlines lines.  spec: int L -> L-1, L, L+1 cycling; 'short' -> boundary
+    lengths <= 33; 'mixed' -> any boundary length <= 1025; total -> exactly that many bytes in all"""
+    if nlines == 0:
+        return []
+    if total is not None:
+        per = max(0, total // nlines - 1)
+        ls = [per] * nlines
+        rest = total - (per + 1) * nlines
+        ls[-1] = max(0, ls[-1] + rest)
+        return ls
+    if isinstance(spec, int):
+        return [max(0, spec + (j % 3) - 1) for j in range(nlines)]
+    pool = [x for x in BOUNDARY_LENS if x <= (33 if spec == "short" else 1025)] + [0]
+    return [rng.choice(pool) for _ in range(nlines)]
+
+
+def make_texts_big(rng, ids, forced, prof):
+    """texts for size-stressed concretizations.  forced: id -> abstract number of writes (0: empty
+    file, 1: a single line, >= 2: prof['n'] lines); other ids are small edits of their predecessor"""
+    n = max(2, prof.get("n", 1000))
+    if prof.get("identical"):
+        one = blob(rng, prof.get("len", 1) if isinstance(prof.get("len"), int) else 1) + "\n"
+        base = [one] * n
+    else:
+        base = big_lines(rng, length_list(rng, n, prof.get("len", "short"), prof.get("total")))
+    texts, prev = {}, base
+    for c in ids:
+        if c in texts:
+            prev = texts[c]
+            continue
+        for _attempt in range(50):
+            t = list(prev if len(prev) >= 2 else base)
+            for _ in range(rng.randint(1, 3)):
+                pos = rng.randrange(len(t) + 1)
+                op = rng.choice("idr")
+                new = big_lines(rng, [rng.choice(BOUNDARY_LENS[:15]) for _ in range(rng.randint(1, 2))])
+                if op == "i" or not t:
+                    t[pos:pos] = new
+                elif op == "d":
+                    del t[max(0, pos - 1):pos - 1 + rng.randint(1, 2)]
+                else:
+                    t[max(0, pos - 1):max(0, pos - 1) + 1] = new
+            a = forced.get(c)
+            if a == 0:
+                t = []
+            elif a == 1:
+                t = big_lines(rng, [prof.get("one_line_len", rng.choice(BOUNDARY_LENS))])
+            elif a is not None:
+                t = t[:n]
+                while len(t) < n:
+                    t.append(base[len(t) % len(base)])
+                if prof.get("total") is not None:       # exactly that many bytes
+                    size = sum(len(x) for x in t)
+                    last = len(t[-1]) - 1 + (prof["total"] - size)
+                    if last >= 0:
+                        t[-1] = blob(rng, last) + "\n"
+            if all(t != o for o in texts.values()):
+                break
+        else:
+            raise RuntimeError("could not draw distinct big texts")
+        texts[c] = t
+        prev = t
+    return texts
+
+
+def patch_name_len(i, length):
+    """a patch name of (about) the given length, unique per i"""
+    digits = "0123456789abcdefghijklmnopqrstuvwxyz"
+    core, x = "", i
+    while True:
+        core = digits[x % 36] + core
+        x //= 36
+        if not x:
+            break
+    filler = "-2024-03-01-1405-t" * 20
+    return (core + filler)[:max(length, len(core))]
+
+
+def write_map(rng, a, n, failing=None):
+    """abstract write numbers 1..a on a file of n lines: the distinguished concrete writes
+    (1 = first, a = last, or the failing one when the a-th write is the one that fails).
+    Returns {concrete write number: abstract write number}"""
+    if a == n or a == 0:
+        return None
+    if a == 1:
+        return {1: 1}
+    mids = sorted(rng.sample(range(2, n), a - 2)) if a > 2 else []
+    last = n
+    if failing == a:        # the n-th write for a large n
+        lo = (mids[-1] if mids else 1) + 1
+        last = rng.randint(max(lo, (3 * n) // 4), n)
+    cs = [1] + mids + [last]
+    return {c: j + 1 for j, c in enumerate(cs)}
+
+
 # ------------------------------------------------------------------ independent differ
 
 def ed_script(old, new, style="merged"):
@@ -167,7 +291,7 @@ def _hash(flavour, data):
 
 
 def _gz(data):
-    return gzip.compress(data, mtime=0)
+    return gzip.compress(data, compresslevel=1 if len(data) > (1 << 21) else 9, mtime=0)
 
 
 def patch_name(i, style):
@@ -175,7 +299,7 @@ def patch_name(i, style):
 
 
 def build_scenario(rng, inp, canonical=False, maxlen=6, use_diff=None, inject_mode="wrap",
-                   texts=None, foreign=None, base=None, style=None):
+                   texts=None, foreign=None, base=None, style=None, stress=None):
     """concretize the abstract input record of UpdateFile.tla; returns a JSON-able scenario:
     files (relative path -> bytes) of the repository, local0 bytes or None, texts per id, the
     injection to perform.  `canonical`: plainest possible choices (attributes a failure to structure
@@ -191,10 +315,12 @@ def build_scenario(rng, inp, canonical=False, maxlen=6, use_diff=None, inject_mo
         foreign = make_foreign(rng, texts, maxlen)
     if style is None:
         style = 0 if canonical else rng.randint(0, 1)
+    stress = stress or {}
+    big = bool(stress)
     files = {}
     cur_bytes = "".join(texts[cur]).encode("utf-8")
     files[NAME + ".gz"] = _gz(cur_bytes)
-    if canonical or rng.random() < 0.5:
+    if (canonical or rng.random() < 0.5) and not big:
         files[NAME] = cur_bytes
     # patches i = 1..n : hist[i-1] -> hist[i]   (1-based like the specification: patch i turns
     # version i into version i+1, versions numbered from 1)
@@ -205,8 +331,10 @@ def build_scenario(rng, inp, canonical=False, maxlen=6, use_diff=None, inject_mo
             scripts[i] = base["scripts"][str(i)]       # a published patch does not change any more
             continue
         sc = None
-        if use_diff is not None and rng.random() < 0.5:
+        if use_diff is not None and (rng.random() < 0.5 or len(old) + len(new) > 400):
             sc = diff_e(use_diff, old, new)
+            if sc is None and len(old) + len(new) > 400:
+                raise RuntimeError("diff -e is needed for large texts")
         if sc is None:
             sc = ed_script(old, new, "merged" if canonical or rng.random() < 0.7 else "split")
         scripts[i] = "".join(sc)
@@ -219,9 +347,13 @@ def build_scenario(rng, inp, canonical=False, maxlen=6, use_diff=None, inject_mo
                 break
         else:
             raise RuntimeError("no wrong result")
-        served[n] = "".join(ed_script(texts[hist[n - 1]], w))
-        note["wrong_result"] = "".join(w)
-    pnames = {i: patch_name(i, style) for i in range(1, n + 1)}
+        wsc = diff_e(use_diff, texts[hist[n - 1]], w) if (use_diff is not None and len(w) > 200) else None
+        served[n] = "".join(wsc if wsc is not None else ed_script(texts[hist[n - 1]], w))
+        note["wrong_result"] = "".join(w) if len(w) < 50 else "(%d lines)" % len(w)
+    if stress.get("name_len"):
+        pnames = {i: patch_name_len(i, stress["name_len"]) for i in range(1, n + 1)}
+    else:
+        pnames = {i: patch_name(i, style) for i in range(1, n + 1)}
     listed = list(range(h0 + 1, n + 1))
     for i in range(1, n + 1):
         if i in listed or canonical or rng.random() < 0.5:
@@ -261,7 +393,8 @@ def build_scenario(rng, inp, canonical=False, maxlen=6, use_diff=None, inject_mo
         note["cut"] = "%d/%d" % (cut, len(g))
         files["%s.diff/%s.gz" % (NAME, pnames[i])] = g[:cut]
     # the index
-    extra_download = (not canonical) and rng.random() < 0.3
+    extra_download = (not canonical) and rng.random() < 0.3 and not big
+    digits = stress.get("digits")
     shuffle = (not canonical) and rng.random() < 0.4
     pad = (not canonical) and rng.random() < 0.5
     sections = []
@@ -271,7 +404,8 @@ def build_scenario(rng, inp, canonical=False, maxlen=6, use_diff=None, inject_mo
         if fault["k"] == "wrongResultHash":
             curh = _hash(fl, b"not the current content " + bytes([rng.randrange(256)]) + cur_bytes)
         def ent(h, size, nm=None):
-            return "%s %s%s" % (h, str(size).rjust(9) if pad else str(size), "" if nm is None else " " + nm)
+            txt = str(size).zfill(digits) if digits else str(size)       # same number, up to 12 digits
+            return "%s %s%s" % (h, txt.rjust(9) if pad else txt, "" if nm is None else " " + nm)
         sec = [("%s-Current" % fl, ent(curh, len(cur_bytes)), [])]
         sec.append(("%s-History" % fl, "", [" " + ent(_hash(fl, vb(hist[i - 1])), len(vb(hist[i - 1])), pnames[i]) for i in listed]))
         sec.append(("%s-Patches" % fl, "", [" " + ent(_hash(fl, served[i].encode("utf-8")), len(served[i].encode("utf-8")), pnames[i]) for i in listed]))
@@ -315,27 +449,41 @@ def build_scenario(rng, inp, canonical=False, maxlen=6, use_diff=None, inject_mo
         local0 = foreign.encode("utf-8")
     else:
         local0 = "".join(texts[l0]).encode("utf-8")
-    # the injection
+    # the injection.  The abstract number of writes nw counts DISTINGUISHED writes: for an ordinary
+    # concretization the text has exactly nw lines; a size-stressed one has many more and wmap says
+    # which concrete write calls are the distinguished ones (first, ..., last or failing)
     inject = {"mode": "none"}
+    nlines = len(texts[cur])
+    failing = fault["i"] if k == "writeFails" else None
+    wmap = write_map(rng, nw, nlines, failing) if nlines != nw else None
+    conc = {a: c for c, a in wmap.items()} if wmap else None
     if k == "renameFails":
         inject = {"mode": "wrap", "what": "rename"}
     elif k == "writeFails":
         j = fault["i"]
         if inject_mode == "rlimit" and 1 <= j <= nw:
             lines_b = [x.encode("utf-8") for x in texts[cur]]
-            before = sum(len(x) for x in lines_b[:j - 1])
-            limit = before + (0 if canonical else rng.randrange(len(lines_b[j - 1])))
+            cj = conc[j] if conc else j
+            before = sum(len(x) for x in lines_b[:cj - 1])
+            limit = before + (0 if canonical else rng.randrange(len(lines_b[cj - 1])))
+            if stress.get("rlimit_at") is not None and stress["rlimit_at"] < len(cur_bytes):
+                limit = stress["rlimit_at"]         # a byte offset in a boundary neighbourhood
             inject = {"mode": "rlimit", "limit": limit}
         elif j == 0:
             inject = {"mode": "wrap", "what": "open"}
         elif j == nw + 1:
             inject = {"mode": "wrap", "what": "close"}
         else:
-            inject = {"mode": "wrap", "what": "write", "k": j, "partial": (not canonical) and rng.random() < 0.5}
+            inject = {"mode": "wrap", "what": "write", "k": conc[j] if conc else j,
+                      "partial": (not canonical) and rng.random() < 0.5}
+    if wmap:
+        note["lines"] = nlines
+        note["bytes"] = len(cur_bytes)
     return {"in": inp, "files": files, "local0": local0, "foreign": foreign,
             "texts": {str(c): "".join(t) for c, t in texts.items()},
             "patch_names": {str(i): nm for i, nm in pnames.items()}, "inject": inject, "note": note,
-            "scripts": {str(i): t for i, t in scripts.items()}, "style": style}
+            "scripts": {str(i): t for i, t in scripts.items()}, "style": style,
+            "wmap": {str(c): a for c, a in wmap.items()} if wmap else None}
 
 
 # ------------------------------------------------------------------ execution
@@ -345,7 +493,8 @@ class Recorder:
     for the duration of one call: logs the steps that concern local + '.new' and the repository
     URLs, takes a snapshot of the local file at each step, and injects the requested fault"""
 
-    def __init__(self, local, remote, patch_names, inject):
+    def __init__(self, local, remote, patch_names, inject, wmap=None):
+        self.wmap = {int(c): a for c, a in wmap.items()} if wmap else None
         self.local = os.path.abspath(local)
         self.new = self.local + ".new"
         self.remote = remote
@@ -471,7 +620,10 @@ class NewFile:
     def write(self, s):
         r = self._rec
         r.nwrites += 1
-        r.log("WriteNew", r.nwrites)
+        if r.wmap is None:
+            r.log("WriteNew", r.nwrites)
+        elif r.nwrites in r.wmap:           # size-stressed text: only the distinguished writes are steps
+            r.log("WriteNew", r.wmap[r.nwrites])
         if r.inject.get("what") == "write" and r.inject.get("k") == r.nwrites:
             r.fired = True
             if r.inject.get("partial") and len(s) > 1:
@@ -644,7 +796,7 @@ def execute(casedir, sc, record=True, repo_name="repo", keep_local=False):
         if inj.get("mode") == "rlimit":
             res = _call_rlimited(remote, local, inj["limit"])
         elif record or inj.get("mode") == "wrap":
-            rec = Recorder(local, remote, sc["patch_names"], inj)
+            rec = Recorder(local, remote, sc["patch_names"], inj, sc.get("wmap"))
             with rec:
                 res = _call(remote, local)
         else:
@@ -809,7 +961,7 @@ def split_case(case):
     return ([prev] if prev.get("pc", "none") != "none" else []) + [case]
 
 
-def build_multi(rng, ins, canonical=False, maxlen=6, use_diff=None, inject_modes=None):
+def build_multi(rng, ins, canonical=False, maxlen=6, use_diff=None, inject_modes=None, stress=None):
     """concretize one or two consecutive calls: one table of texts for all content ids, the local file
     of the first call, one repository state per call.  A later call under rep = same / mirror
     re-publishes the earlier patches unchanged (a published patch never changes)."""
@@ -817,8 +969,14 @@ def build_multi(rng, ins, canonical=False, maxlen=6, use_diff=None, inject_modes
     for i in ins:
         ids += list(i["hist"])
         forced[i["hist"][-1]] = i["nw"]
-    texts = make_texts(rng, ids, None, max([maxlen] + list(forced.values())), forced)
-    foreign = make_foreign(rng, texts, maxlen)
+    if stress and stress.get("prof"):
+        texts = make_texts_big(rng, ids, forced, stress["prof"])
+        foreign = "".join(big_lines(rng, [rng.choice(BOUNDARY_LENS) for _ in range(rng.randint(1, 5))]))
+        if any(foreign == "".join(o) for o in texts.values()):
+            foreign += "x\n"
+    else:
+        texts = make_texts(rng, ids, None, max([maxlen] + list(forced.values())), forced)
+        foreign = make_foreign(rng, texts, maxlen)
     style = 0 if canonical else rng.randint(0, 1)
     runs, base = [], None
     for r, inp in enumerate(ins):
@@ -826,7 +984,7 @@ def build_multi(rng, ins, canonical=False, maxlen=6, use_diff=None, inject_modes
         if r < len(ins) - 1:
             mode = "wrap"           # a forked child would not carry module state into the next call
         sc = build_scenario(rng, inp, canonical=canonical, maxlen=maxlen, use_diff=use_diff, inject_mode=mode,
-                            texts=texts, foreign=foreign, style=style,
+                            texts=texts, foreign=foreign, style=style, stress=stress,
                             base=base if inp.get("rep") in ("same", "mirror") else None)
         runs.append(sc)
         base = sc
@@ -880,11 +1038,43 @@ def judge_multi(msc, exps, res):
             "ncalls": len(exps)}
 
 
+def stress_profile(rng, heavy=False):
+    """a size-stressed concretization of an abstract case (every k-th case gets one)"""
+    r = rng.random()
+    if heavy:                # around 1 MiB, rarely
+        prof = rng.choice([{"n": 1000, "total": (1 << 20) + rng.choice([-1, 0, 1])},
+                           {"n": 16, "len": rng.choice(BIG_LENS)},
+                           {"n": 100000, "len": 1, "identical": True},
+                           {"n": 4096, "len": 255}])
+        prof["one_line_len"] = rng.choice(BIG_LENS + [(1 << 20) - 1])
+    elif r < 0.25:           # a file of exactly 8 KiB / 64 KiB (+-1)
+        prof = {"n": rng.choice([10, 100, 1000]), "total": rng.choice([8192, 65536]) + rng.choice([-1, 0, 1])}
+        prof["one_line_len"] = rng.choice(BOUNDARY_LENS[-9:])
+    elif r < 0.5:            # long lines
+        prof = {"n": rng.choice([3, 9, 10, 11, 17, 33]), "len": rng.choice(BOUNDARY_LENS[-12:])}
+        prof["one_line_len"] = rng.choice(BOUNDARY_LENS[-6:] + BIG_LENS)
+    elif r < 0.75:           # many lines
+        prof = {"n": rng.choice([99, 100, 101, 255, 256, 257, 1000, 1001]), "len": rng.choice(["short", "mixed", 8, 72, 80])}
+        prof["one_line_len"] = rng.choice(BOUNDARY_LENS)
+    else:                    # many identical lines
+        prof = {"n": rng.choice([100, 256, 1000, 4097]), "len": rng.choice([0, 1, 16, 64]), "identical": True}
+        prof["one_line_len"] = rng.choice(BOUNDARY_LENS)
+    return {"prof": prof,
+            "name_len": rng.choice([None, 1, 2, 7, 8, 9, 15, 16, 17, 31, 32, 33, 63, 64, 65, 127, 128, 129, 250]),
+            "digits": rng.choice([None, 9, 10, 11, 12]),
+            "rlimit_at": rng.choice(BYTE_OFFSETS)}
+
+
 def run_case(workdir, rng, case, variant, opts):
     exps = split_case(case)
+    stress = None
+    if variant.startswith("stress"):
+        stress = stress_profile(rng, heavy=variant == "stress-heavy")
+    eligible = case["in"]["fault"]["k"] == "writeFails" and 1 <= case["in"]["fault"]["i"] <= case["in"]["nw"]
+    last = "rlimit" if variant == "rlimit" or (stress and eligible and rng.random() < 0.5) else "wrap"
     msc = build_multi(rng, [e["in"] for e in exps], canonical=(variant == "canonical"), maxlen=opts.get("maxlen", 6),
-                      use_diff=workdir if opts.get("diff_e") and variant != "canonical" else None,
-                      inject_modes=["wrap"] * (len(exps) - 1) + ["rlimit" if variant == "rlimit" else "wrap"])
+                      use_diff=workdir if (stress or (opts.get("diff_e") and variant != "canonical")) else None,
+                      inject_modes=["wrap"] * (len(exps) - 1) + [last], stress=stress)
     return judge_multi(msc, exps, run_multi(workdir, msc))
 
 
@@ -999,6 +1189,83 @@ def _trace_entry(view, obs, proj):
             "fired": obs["fired"], "same": proj["local_same_bytes"], "note": note, "inject": inj.get("mode")}
 
 
+def _inp(hist, local0, fault=("none", 0), nw=2, h0=0, flav=("SHA1", "SHA256"), url=1, rep="first"):
+    return {"hist": list(hist), "h0": h0, "local0": local0, "fault": {"k": fault[0], "i": fault[1]}, "nw": nw,
+            "flav": list(flav), "url": url, "rep": rep}
+
+
+BIG_MENU = ["huge-full-download", "chain-199", "chain-50-corrupt", "one-line-1MiB", "64KiB-rlimit-8192",
+            "identical-100000", "lines-65536-nth-write", "two-calls-1MiB", "chain-11-badlast-longnames",
+            "10KiB-rlimit-4096", "8KiB-rename", "uptodate-200", "1MiB-wrong-result-hash", "chain-9-shortnames"]
+
+
+def big_case(rng, which):
+    """the handful of really big / long cases (trace leg): returns (inputs, stress, injection mode)"""
+    pm = rng.choice([-1, 0, 1])
+    if which == "huge-full-download":       # 16 MiB, 100000 lines: download and gunzip chunking, hashing
+        return [_inp([1, 2], ABSENT, flav=("SHA256",))], {"prof": {"n": 100000, "total": (1 << 24) + pm}}, "wrap"
+    if which == "chain-199":                # 200 versions, index of 199 entries, sizes with 12 digits
+        return ([_inp(range(1, 201), 1, nw=3)],
+                {"prof": {"n": 3, "len": "short"}, "digits": 12, "name_len": rng.choice([15, 16, 17])}, "wrap")
+    if which == "chain-50-corrupt":
+        return ([_inp(range(1, 51), 21, fault=("patchCorrupt", 35), nw=2, flav=("SHA1",))],
+                {"prof": {"n": 10, "len": "mixed"}, "digits": 10, "name_len": rng.choice([63, 64, 65])}, "wrap")
+    if which == "one-line-1MiB":            # a single line of 1 MiB; the write fails at byte 65536
+        return ([_inp([1, 2, 3], FOREIGN, fault=("writeFails", 1), nw=1)],
+                {"prof": {"n": 50, "len": "mixed", "one_line_len": (1 << 20) - 1 + pm},
+                 "rlimit_at": 65536 + rng.choice([-1, 0, 1])}, "rlimit")
+    if which == "64KiB-rlimit-8192":
+        return ([_inp([1, 2, 3], 2, fault=("writeFails", 2), nw=2, flav=("SHA256",))],
+                {"prof": {"n": 1000, "total": 65536 + pm}, "rlimit_at": 8192 + rng.choice([-1, 0, 1])}, "rlimit")
+    if which == "identical-100000":         # 100000 identical lines, one patch
+        return [_inp([1, 2], 1)], {"prof": {"n": 100000, "len": 1, "identical": True}, "digits": 9}, "wrap"
+    if which == "lines-65536-nth-write":    # very long lines; the n-th write for a large n fails
+        return ([_inp([1, 2, 3], 1, fault=("writeFails", 2), nw=2)],
+                {"prof": {"n": 40, "len": 65536}, "name_len": 128}, "wrap")
+    if which == "two-calls-1MiB":           # full download of 1 MiB, then a patch on it in the same process
+        return ([_inp([1], ABSENT, nw=2), _inp([1, 2], ABSENT, nw=2, rep="same")],
+                {"prof": {"n": 1024, "total": (1 << 20) + pm}}, "wrap")
+    if which == "chain-11-badlast-longnames":
+        return ([_inp(range(1, 13), 1, fault=("badLastPatch", 11), nw=2)],
+                {"prof": {"n": 33, "len": 72}, "name_len": 250, "digits": 11}, "wrap")
+    if which == "10KiB-rlimit-4096":
+        return ([_inp([1, 2], 1, fault=("writeFails", 2), nw=2, flav=("SHA1",))],
+                {"prof": {"n": 300, "len": 32}, "rlimit_at": 4096 + rng.choice([-1, 0, 1])}, "rlimit")
+    if which == "8KiB-rename":
+        return ([_inp([1, 2, 2, 3], 1, fault=("renameFails", 0), nw=2)],
+                {"prof": {"n": 100, "total": 8192 + pm}, "name_len": 33}, "wrap")
+    if which == "uptodate-200":             # index that lists the last 100 of 199 patches; local is current
+        return ([_inp(range(1, 201), 200, nw=2, h0=99)], {"prof": {"n": 2, "len": "short"}, "digits": 11}, "wrap")
+    if which == "1MiB-wrong-result-hash":
+        return ([_inp([1, 2, 3], 1, fault=("wrongResultHash", 0), nw=2)],
+                {"prof": {"n": 1000, "len": 1024}}, "wrap")
+    if which == "chain-9-shortnames":       # patch names of one character
+        return [_inp(range(1, 11), 1, nw=1)], {"prof": {"n": 9, "len": "short", "one_line_len": 8192}, "name_len": 1}, "wrap"
+    raise KeyError(which)
+
+
+def record_big(workdir, seed, which, rep_no=0):
+    """one of the big cases executed on the real function; returns (trace, scenario)"""
+    import random
+    rng = random.Random("c19-big-%s-%s-%d" % (seed, which, rep_no))
+    ins, stress, mode = big_case(rng, which)
+    msc = build_multi(rng, ins, canonical=False, maxlen=6, use_diff=workdir,
+                      inject_modes=["wrap"] * (len(ins) - 1) + [mode], stress=stress)
+    t = trace_multi(workdir, msc)
+    t["big"] = which
+    t["sizes"] = [{"lines": r["texts"][str(r["in"]["hist"][-1])].count("\n"),
+                   "bytes": len(r["texts"][str(r["in"]["hist"][-1])]), "versions": len(r["in"]["hist"]),
+                   "gz": len(r["files"][NAME + ".gz"])} for r in msc["runs"]]
+    return t, msc
+
+
 def record_chunk(args):
+    """pool worker: idxs are numbers (random histories) or ('big', name, repetition)"""
     workdir, seed, idxs, opts = args
-    return [(i, record_one(workdir, seed, i, opts)[0]) for i in idxs]
+    out = []
+    for i in idxs:
+        if isinstance(i, tuple):
+            out.append((i, record_big(workdir, seed, i[1], i[2])[0]))
+        else:
+            out.append((i, record_one(workdir, seed, i, opts)[0]))
+    return out
